@@ -121,11 +121,7 @@ fn mir_facts<'tcx>(tcx: TyCtxt<'tcx>, did: rustc_hir::def_id::DefId, buf: &mut S
                     };
                     let ga: Vec<String> = args
                         .iter()
-                        .map(|a| {
-                            rustc_middle::ty::print::with_no_trimmed_paths!(
-                                rustc_middle::ty::print::with_crate_prefix!(format!("{}", a))
-                            )
-                        })
+                        .map(|a| hirdump::with_full(|| format!("{}", a)))
                         .collect();
                     (cp, resolved, ga.join(", "))
                 } else {
@@ -221,12 +217,7 @@ impl Callbacks for Cb {
                                 self_ty = s(&tystr(tcx.type_of(p).instantiate_identity().skip_norm_wip()));
                                 if of_trait {
                                     let tr = tcx.impl_trait_ref(p).instantiate_identity().skip_norm_wip();
-                                    trait_ref = s(&rustc_middle::ty::print::with_no_trimmed_paths!(
-                                        rustc_middle::ty::print::with_crate_prefix!(format!(
-                                            "{}",
-                                            tr.print_only_trait_path()
-                                        ))
-                                    ));
+                                    trait_ref = s(&hirdump::with_full(|| format!("{}", tr.print_only_trait_path())));
                                 }
                             }
                             DefKind::Trait => {
@@ -327,12 +318,7 @@ impl Callbacks for Cb {
                             s(&tystr(tcx.type_of(parent).instantiate_identity().skip_norm_wip())),
                             if of_trait {
                                 let tr = tcx.impl_trait_ref(parent).instantiate_identity().skip_norm_wip();
-                                s(&rustc_middle::ty::print::with_no_trimmed_paths!(
-                                    rustc_middle::ty::print::with_crate_prefix!(format!(
-                                        "{}",
-                                        tr.print_only_trait_path()
-                                    ))
-                                ))
+                                s(&hirdump::with_full(|| format!("{}", tr.print_only_trait_path())))
                             } else {
                                 "null".into()
                             },
@@ -356,14 +342,36 @@ impl Callbacks for Cb {
                         hir
                     ));
                 }
+                DefKind::Mod => {
+                    let mut ch = String::from("[");
+                    let mut n = 0;
+                    for c in tcx.module_children_local(ldid) {
+                        let (rk, rp) = match c.res {
+                            rustc_hir::def::Res::Def(k, d) => (format!("{:?}", k), dpath(tcx, d)),
+                            _ => continue,
+                        };
+                        if n > 0 {
+                            ch.push(',');
+                        }
+                        n += 1;
+                        ch.push_str(&format!(
+                            "[{},{},{},{},{}]",
+                            s(c.ident.name.as_str()),
+                            s(&rp),
+                            s(&rk),
+                            !c.reexport_chain.is_empty(),
+                            c.vis.is_public()
+                        ));
+                    }
+                    ch.push(']');
+                    buf.push_str(&format!("{{\"k\":\"mod\",\"path\":{},\"children\":{}}}\n", s(&dpath(tcx, did)), ch));
+                }
                 DefKind::Impl { of_trait } => {
                     nimpl += 1;
                     let self_ty = tystr(tcx.type_of(did).instantiate_identity().skip_norm_wip());
                     let tr = if of_trait {
                         let tr = tcx.impl_trait_ref(did).instantiate_identity().skip_norm_wip();
-                        s(&rustc_middle::ty::print::with_no_trimmed_paths!(
-                            rustc_middle::ty::print::with_crate_prefix!(format!("{}", tr.print_only_trait_path()))
-                        ))
+                        s(&hirdump::with_full(|| format!("{}", tr.print_only_trait_path())))
                     } else {
                         "null".into()
                     };
@@ -404,6 +412,30 @@ impl Callbacks for Cb {
                 }
                 _ => {}
             }
+        }
+        {
+            let mut ch = String::from("[");
+            let mut n = 0;
+            for c in tcx.module_children_local(rustc_hir::def_id::CRATE_DEF_ID) {
+                let (rk, rp) = match c.res {
+                    rustc_hir::def::Res::Def(k, d) => (format!("{:?}", k), dpath(tcx, d)),
+                    _ => continue,
+                };
+                if n > 0 {
+                    ch.push(',');
+                }
+                n += 1;
+                ch.push_str(&format!(
+                    "[{},{},{},{},{}]",
+                    s(c.ident.name.as_str()),
+                    s(&rp),
+                    s(&rk),
+                    !c.reexport_chain.is_empty(),
+                    c.vis.is_public()
+                ));
+            }
+            ch.push(']');
+            buf.push_str(&format!("{{\"k\":\"mod\",\"path\":\"crate\",\"children\":{}}}\n", ch));
         }
         buf.push_str(&format!(
             "{{\"k\":\"summary\",\"crate\":{},\"fns\":{},\"mir_bodies\":{},\"adts\":{},\"consts\":{},\"impls\":{}}}\n",
